@@ -86,6 +86,10 @@ class Ctl:
         self.bus = None  # optional: list shared by several parties, global order of seam calls (C08)
         self.caller_arrays = []  # (name, array the caller passed to the constructor, pristine copy)
         self.tag = None
+        self.depth = 0  # > 0 while a scripted callback (user code calling back into the library) is running
+        self.nested = []  # seam calls made from inside a callback (kept apart from the history that is judged)
+        self.ncount = {}
+        self.callbacks = []  # (kind, outcome) of every callback performed
 
     def arm(self, plan, bus=None, tag=None):
         self.plan = plan or {}
@@ -94,6 +98,10 @@ class Ctl:
         self.raised = []
         self.bus = bus
         self.tag = tag
+        self.depth = 0
+        self.nested = []
+        self.ncount = {}
+        self.callbacks = []
 
     def __deepcopy__(self, memo):
         return Ctl()
@@ -206,6 +214,62 @@ def _hook_action(self, t, act):
     raise AssertionError(kind)
 
 
+def _callback(self, t, tn, cb, ctl):
+    """User code that calls back into the library while the library is calling it (a hook or an equation that copies the
+    model, evaluates an expression, exports a table, solves another period or another model, makes a call that is
+    refused...). Whatever the callback's own outcome, it is the user's; what is judged is the operation under way."""
+    what = cb['what']
+    d = self.__dict__
+    n = len(d['span'])
+    quiet = dict(max_iter=2, tol=1.0, failures='ignore', errors='ignore')
+    ctl.depth += 1
+    res = 'ok'
+    try:
+        if what == 'copy':
+            c = self.copy()
+            if cb.get('solve'):
+                c.solve_t(tn, **quiet)  # another object of the same class solved in the middle of this one's solve
+        elif what == 'deepcopy':
+            import copy as _copy
+
+            _copy.deepcopy(self)
+        elif what == 'eval':
+            self.eval(cb.get('expr', '1 + 1'))
+        elif what == 'export':
+            self.to_dataframe()
+            self.values  # noqa: B018
+            self.size  # noqa: B018
+        elif what == 'reindex':
+            self.reindex(d['span'])
+        elif what == 'iter':
+            list(self.iter_periods())
+        elif what == 'bad_call':
+            # a nested request that must be refused before anything changes (C02): bad iteration window / no such period
+            if cb.get('how') == 'window':
+                self.solve_t(tn, min_iter=3, max_iter=2)
+            elif cb.get('how') == 'offset':
+                self.solve_t(tn, offset=n + 1)
+            else:
+                self.solve_t(n + 3)
+        elif what == 'nested_solve':
+            if cb['tn2'] != tn and 0 <= cb['tn2'] < n:
+                self.solve_t(cb['tn2'], **quiet)  # another period of the same model
+        elif what == 'add_variable':
+            nm = 'CB%d' % len([x for x in d['index'] if x.startswith('CB')])
+            self.add_variable(nm, 0.0)
+        elif what == 'label':
+            self[d['index'][0], d['span'][cb.get('pos', 0) % n]]  # noqa: B018  a label lookup
+        else:
+            raise AssertionError(what)
+    except SimInterrupt:
+        raise
+    except Exception as e:  # the user's own try / except around the callback
+        res = type(e).__name__
+    finally:
+        ctl.depth -= 1
+    ctl.callbacks.append((what, res))
+
+
 def _column(d, t):
     out = {}
     for nm in d['names']:
@@ -232,6 +296,17 @@ def make_scripted(fsic, spec, bases=None, extra_attrs=None):
         n = len(self.__dict__['span'])
         tn = t + n if t < 0 else t
         key = f'{hook}:{tn}'
+        if ctl.depth:
+            # user code (a scripted callback) has called back into the library and the library is calling user code
+            # again: these seam calls are not part of the history being judged
+            k = ctl.ncount[key] = ctl.ncount.get(key, 0) + 1
+            ctl.nested.append((hook, int(tn), k, kw.get('iteration')))
+            if hook == 'eval':
+                d_ = self.__dict__
+                for nm in endo:
+                    if d_['_' + nm].dtype.kind == 'f':
+                        d_['_' + nm][t] = d_['_' + nm][t] / 2.0 + 0.25  # a contraction: the nested solve goes somewhere
+            return
         k = ctl.count[key] = ctl.count.get(key, 0) + 1
         d = self.__dict__
         rec = {
@@ -257,7 +332,11 @@ def make_scripted(fsic, spec, bases=None, extra_attrs=None):
                 rec['exc'] = 'SimInterrupt'
                 raise SimInterrupt()
         p = _plan_for(ctl, tn)
+        cbs = [cb for cb in p.get('cb', ()) if cb['hook'] == hook and cb.get('k', 1) == k]
         try:
+            for cb in cbs:
+                if cb.get('when', 'pre') == 'pre':
+                    _callback(self, t, tn, cb, ctl)
             if hook == 'eval':
                 passes = p.get('passes', [])
                 act = passes[k - 1] if k - 1 < len(passes) else p.get('default', {'a': 'delta', 'd': [0.0] * len(endo)})
@@ -269,6 +348,9 @@ def make_scripted(fsic, spec, bases=None, extra_attrs=None):
                 act = p.get(hook) or {'a': 'noop'}
                 rec['act'] = act.get('a')
                 _hook_action(self, t, act)
+            for cb in cbs:
+                if cb.get('when', 'pre') == 'post':
+                    _callback(self, t, tn, cb, ctl)
         except BaseException as e:
             rec['exc'] = type(e).__name__
             ctl.raised.append(e)
